@@ -89,8 +89,8 @@ def check_normal(cfg, n, acc):
     acc.traces += res["executions"]
     acc.transitions += res["n"] * res["executions"]
     tp, streams = run.last
-    if res["unmodelled"] or not res["affine_ok"]:
-        acc.undecided += 1
+    if res["unmodelled"] or not res["affine_ok"] or (n > 0 and res["n"] == 0 and tp.points):
+        acc.undecided += 1           # e.g. a normal sampler built on uniform draws: outside the basis analysis, judged by the seeded stage only
         return []
     d = desc(cfg, n)
     fails = []
